@@ -26,6 +26,7 @@ type Exec struct {
 	trace    *Trace
 	checkPanics bool
 	nPanicObl   int
+	nonNil      map[string]bool // reference terms known to be non-zero on every path
 }
 
 // frame is one activation (top-level or inlined).
@@ -159,6 +160,11 @@ func (x *Exec) typeFacts(reach string, t types.Type, v Val, st *State) {
 			}
 		case kRef:
 			x.vc.S.fact(reach, and(sx("<=", "0", c), sx("<", c, st.Alloc)))
+			if isAtom(c) {
+				if _, ok := x.vc.bornLt[c]; !ok {
+					x.vc.bornLt[c] = st.Alloc
+				}
+			}
 		case kOff:
 			x.vc.S.fact(reach, sx("<=", "0", c))
 		case kLen:
@@ -477,6 +483,7 @@ func (x *Exec) havocLoopState(fr *frame, li *loopInfo, cur *State, r string) {
 	if writesMem || calls {
 		na := S.freshConst("alloc_loop", false)
 		S.fact(r, sx(">=", na, oldAlloc))
+		x.vc.allocP[na] = []string{oldAlloc}
 		cur.Alloc = na
 		// frame: objects that existed before the loop and are not named in
 		// `loop k modifies` keep their contents
@@ -491,7 +498,7 @@ func (x *Exec) havocLoopState(fr *frame, li *loopInfo, cur *State, r string) {
 			x.havocMem(cur, keep)
 		} else if !calls && !x.loopStoresOld(fr, li) {
 			// only fresh objects are written
-			x.havocMem(cur, keep)
+			x.vc.havocFrame(cur, li.entrySt.Alloc)
 		} else {
 			x.havocMem(cur, "false")
 			if fr.top {
@@ -511,7 +518,7 @@ func (x *Exec) havocLoopState(fr *frame, li *loopInfo, cur *State, r string) {
 	}
 }
 
-func (x *Exec) havocMem(cur *State, keep string) { x.vc.havocMem(cur, keep) }
+func (x *Exec) havocMem(cur *State, keep string) string { return x.vc.havocMem(cur, keep) }
 
 // loopStoresOld: conservative; a Store exists in the loop -> may write old objects
 func (x *Exec) loopStoresOld(fr *frame, li *loopInfo) bool {
